@@ -2,6 +2,7 @@ package main
 
 import (
 	"fmt"
+	"go/ast"
 	"go/token"
 	"go/types"
 	"strings"
@@ -26,6 +27,20 @@ func (e *Eval) instr(fr *Frame, in ssa.Instruction, st *State, cur string) (stri
 	e.curSt = st
 	switch x := in.(type) {
 	case *ssa.DebugRef:
+		// source name of a register (used by loop invariants and at-clauses)
+		if id, ok := x.Expr.(*ast.Ident); ok && !x.IsAddr {
+			if v, ok := fr.vals[x.X]; ok && v.T != "" {
+				if fr.names == nil {
+					fr.names = map[string]namedVal{}
+				}
+				fr.names[id.Name] = namedVal{v, x.X.Type()}
+			} else if k, ok := x.X.(*ssa.Const); ok {
+				if fr.names == nil {
+					fr.names = map[string]namedVal{}
+				}
+				fr.names[id.Name] = namedVal{e.constVal(k), k.Type()}
+			}
+		}
 	case *ssa.Alloc:
 		t := x.Type().(*types.Pointer).Elem()
 		switch t.Underlying().(type) {
@@ -130,7 +145,34 @@ func (e *Eval) instr(fr *Frame, in ssa.Instruction, st *State, cur string) (stri
 		fr.vals[x] = Val{T: c.Define(fr.prefix+x.Name(), c.Sort(x.Type()), t)}
 	case *ssa.Convert:
 		v := e.val(fr, x.X)
-		fr.vals[x] = Val{T: c.Define(fr.prefix+x.Name(), c.Sort(x.Type()), e.convert(v.T, x.X.Type(), x.Type()))}
+		fs, ts := c.Sort(x.X.Type()), c.Sort(x.Type())
+		switch {
+		case fs == "Slice" && ts == "GStr":
+			// string(bs): a string with the slice's length and bytes
+			if sl, ok := x.X.Type().Underlying().(*types.Slice); ok && c.Sort(sl.Elem()) == bvSort(8) {
+				r := c.Fresh(fr.prefix+x.Name()+":str", "GStr")
+				arrT := sel(c.Get(st, e.elemComp(sl.Elem())), "(s.arr "+v.T+")")
+				c.Assert(eq("(gs.len "+r+")", "(s.len "+v.T+")"))
+				c.Assert(fmt.Sprintf("(forall ((i (_ BitVec 64))) (! (=> (and (bvsle #x0000000000000000 i) (bvslt i (s.len %s))) (= (gs.at %s i) (select %s (bvadd (s.off %s) i)))) :pattern ((gs.at %s i))))", v.T, r, arrT, v.T, r))
+				fr.vals[x] = Val{T: r}
+				break
+			}
+			fr.vals[x] = Val{T: c.Define(fr.prefix+x.Name(), ts, e.convert(v.T, x.X.Type(), x.Type()))}
+		case fs == "GStr" && ts == "Slice":
+			// []byte(s): a fresh array holding the string's bytes
+			if sl, ok := x.Type().Underlying().(*types.Slice); ok && c.Sort(sl.Elem()) == bvSort(8) {
+				arr := e.freshRef(fr.prefix + x.Name() + ":bytes")
+				comp := e.elemComp(sl.Elem())
+				na := c.Fresh(fr.prefix+x.Name()+":elems", "(Array (_ BitVec 64) (_ BitVec 8))")
+				c.Assert(fmt.Sprintf("(forall ((i (_ BitVec 64))) (! (=> (and (bvsle #x0000000000000000 i) (bvslt i (gs.len %s))) (= (select %s i) (gs.at %s i))) :pattern ((select %s i))))", v.T, na, v.T, na))
+				c.Set(st, comp, sto(c.Get(st, comp), arr, na))
+				fr.vals[x] = Val{T: c.Define(fr.prefix+x.Name(), "Slice", fmt.Sprintf("(mk-slice %s #x0000000000000000 (gs.len %s) (gs.len %s))", arr, v.T, v.T))}
+				break
+			}
+			fr.vals[x] = Val{T: c.Define(fr.prefix+x.Name(), ts, e.convert(v.T, x.X.Type(), x.Type()))}
+		default:
+			fr.vals[x] = Val{T: c.Define(fr.prefix+x.Name(), ts, e.convert(v.T, x.X.Type(), x.Type()))}
+		}
 	case *ssa.ChangeType:
 		fr.vals[x] = e.val(fr, x.X)
 	case *ssa.ChangeInterface:
@@ -219,6 +261,9 @@ func (e *Eval) instr(fr *Frame, in ssa.Instruction, st *State, cur string) (stri
 		switch x.X.Type().Underlying().(type) {
 		case *types.Array:
 			fr.vals[x] = Val{T: c.Define(fr.prefix+x.Name(), c.Sort(x.Type()), sel(v.T, i64))}
+		case *types.Basic: // string
+			e.safetyOb(fr, in, "strindex", cur, and("(bvsle #x0000000000000000 "+i64+")", "(bvslt "+i64+" (gs.len "+v.T+"))"))
+			fr.vals[x] = Val{T: c.Define(fr.prefix+x.Name(), bvSort(8), "(gs.at "+v.T+" "+i64+")")}
 		default:
 			c.Unsupported("Index on %s", x.X.Type())
 			fr.vals[x] = e.havocVal(fr.prefix+x.Name(), x.Type(), cur)
